@@ -60,7 +60,7 @@ type Obs struct {
 func unhex(s string) []byte { return jgen.Unhex(s) }
 
 // runProc executes one Process call on the real node and returns the Coq literal of the case plus the observation.
-func runProc(c Case) (lit string, obs Obs, nontrivial bool) {
+func runProc(c Case) (ret *retained, obs Obs, nontrivial bool) {
 	gv, mv, ok := jgen.Build(c.Payload)
 	ty := unhex(c.Type)
 	tm := c.Time.Time()
@@ -162,14 +162,99 @@ func runProc(c Case) (lit string, obs Obs, nontrivial bool) {
 	if ok {
 		plLit = "(Some " + mv.Lit() + ")"
 	}
-	lit = fmt.Sprintf("CProc %d {| c_node := %s; c_type := %s; c_time := %s; c_payload := %s; c_pre := %s;\n   c_obs := {| o_err := %s; o_out := %d; o_table := %s; o_frame := %s; o_decode := %d |} |}",
+	prefix := fmt.Sprintf("CProc %d {| c_node := %s; c_type := %s; c_time := %s; c_payload := %s; c_pre := %s;\n   c_obs := {| o_err := %s; o_out := %d; o_table := %s; o_frame := %s; o_decode := %d",
 		c.ID, nodeLit, jgen.Bytes(ty), jgen.OptBytes([]byte(timeText), c.Time.Encodable()), plLit, preLit,
 		hc.B(obs.Err), obs.Out, jgen.TableLit(e.Formatted, extra), hc.B(obs.Frame), obs.Decode)
+	// keep the event together with a private copy of what is stored under json right now: it is re-read after later
+	// Process calls on other events (the stored line must stay what was stored)
+	ret = &retained{id: c.ID, prefix: prefix, ev: e}
+	if v, has := e.Format("json"); has {
+		ret.has = true
+		ret.copy = append([]byte{}, v...)
+	}
 	nontrivial = !ok || jgen.Depth(c.Payload) > 1 || string(jgen.Sanitize(ty)) != string(ty) || (mv != nil && mv.K == "str" && len(mv.S) > 0)
 	return
 }
 
-// runTable executes a forced schedule of FormattedAs / Format calls, each on the goroutine the schedule names.
+// ---------------------------------------------------------------- retention: stored values must not change afterwards
+type retained struct {
+	id       int
+	prefix   string // the case literal up to o_decode (complete literal when ev == nil)
+	ev       *el.Event
+	copy     []byte // private copy of Format("json") taken right after Process
+	has      bool
+	since    int // Process calls on other events since
+	later    int // ... after which a change was first seen (0: none)
+	final    []byte
+	finalHas bool
+}
+
+func (r *retained) recheck(calls int) {
+	if r.ev == nil {
+		return
+	}
+	r.since += calls
+	if r.later != 0 {
+		return
+	}
+	v, has := r.ev.Format("json")
+	if has != r.has || !bytes.Equal(v, r.copy) {
+		r.later = r.since
+		r.final = append([]byte{}, v...)
+		r.finalHas = has
+	}
+}
+func (r *retained) lit() string {
+	if r.ev == nil {
+		return r.prefix
+	}
+	if r.later == 0 {
+		r.final, r.finalHas = r.copy, r.has
+	}
+	return r.prefix + fmt.Sprintf("; o_final := %s; o_later := %d |} |}", jgen.OptBytes(r.final, r.finalHas), r.later)
+}
+
+var churnPayloads = []interface{}{"", "x", strings.Repeat("z", 700), map[string]interface{}{"k": []interface{}{1, "two", nil}}, strings.Repeat("<&>\n", 40), 12345}
+
+// churnCall formats one more, unrelated event with a stock JSON formatter
+func churnCall(i int) {
+	e := &el.Event{Type: el.EventType(fmt.Sprintf("churn-%d", i)), CreatedAt: time.Unix(int64(i), 0).UTC(), Payload: churnPayloads[i%len(churnPayloads)]}
+	var n el.Node = &el.JSONFormatter{}
+	if i%2 == 1 {
+		n = &el.JSONFormatterFilter{}
+	}
+	func() {
+		defer func() { _ = recover() }()
+		_, _ = n.Process(context.Background(), e)
+	}()
+}
+
+// settle re-reads every retained event after each of a few further Process calls on this goroutine and after a round of
+// Process calls from other goroutines
+func settle(batch []*retained) {
+	for i := 0; i < 8; i++ {
+		churnCall(i)
+		for _, r := range batch {
+			r.recheck(1)
+		}
+	}
+	var wg sync.WaitGroup
+	const ng, per = 4, 8
+	for g := 0; g < ng; g++ {
+		wg.Add(1)
+		go func(g int) {
+			defer wg.Done()
+			for i := 0; i < per; i++ {
+				churnCall(100*g + i)
+			}
+		}(g)
+	}
+	wg.Wait()
+	for _, r := range batch {
+		r.recheck(ng * per)
+	}
+}
+
 func runTable(c Case) (lit string, panicked string) {
 	var formatted map[string][]byte
 	if !c.NilTab {
@@ -250,6 +335,22 @@ type emitter struct {
 	nontriv int
 	panics  []string
 	next    int
+	batch   []*retained
+	mutated int
+}
+
+const batchSize = 40
+
+// flush closes a batch: further Process calls, the re-reads, then the case literals are written
+func (em *emitter) flush() {
+	settle(em.batch)
+	for _, r := range em.batch {
+		if r.later != 0 {
+			em.mutated++
+		}
+		em.cf.Add(r.lit())
+	}
+	em.batch = nil
 }
 
 func (em *emitter) emit(c Case) {
@@ -261,7 +362,7 @@ func (em *emitter) emit(c Case) {
 		if p != "" {
 			em.panics = append(em.panics, fmt.Sprintf("case %d: %s", c.ID, p))
 		}
-		em.cf.Add(lit)
+		em.batch = append(em.batch, &retained{id: c.ID, prefix: lit})
 		em.stats["table-cases"]++
 		em.stats["table-ops"] += len(c.Ops)
 		sig := string(js[strings.Index(string(js), `"gen"`):])
@@ -270,11 +371,15 @@ func (em *emitter) emit(c Case) {
 			em.nontriv++
 		}
 	} else {
-		lit, obs, nt := runProc(c)
+		ret, obs, nt := runProc(c)
 		if obs.Panic != "" {
 			em.panics = append(em.panics, fmt.Sprintf("case %d: %s", c.ID, obs.Panic))
 		}
-		em.cf.Add(lit)
+		// this was one more Process call for every event retained so far
+		for _, r := range em.batch {
+			r.recheck(1)
+		}
+		em.batch = append(em.batch, ret)
 		em.stats["proc:"+c.Node]++
 		em.stats[fmt.Sprintf("pred:%d", c.Pred)]++
 		if obs.Err {
@@ -297,6 +402,9 @@ func (em *emitter) emit(c Case) {
 	em.side.Write(js)
 	em.side.Write([]byte("\n"))
 	em.stats["cases"]++
+	if len(em.batch) >= batchSize {
+		em.flush()
+	}
 }
 
 // ---------------------------------------------------------------- generators
@@ -549,13 +657,19 @@ func main() {
 			}
 			return
 		}
-		lit, obs, _ := runProc(c)
+		ret, obs, _ := runProc(c)
 		js, _ := json.MarshalIndent(obs, "", " ")
 		fmt.Printf("observation: %s\n", js)
 		for k, v := range obs.Table {
 			fmt.Printf("stored %q = %q\n", k, unhex(v))
 		}
-		fmt.Println(lit)
+		settle([]*retained{ret})
+		if ret.later != 0 {
+			fmt.Printf("STORED VALUE CHANGED after %d later Process calls on other events: json (present=%v) is now %q\n", ret.later, ret.finalHas, ret.final)
+		} else {
+			fmt.Printf("stored json unchanged after %d later Process calls on other events\n", ret.since)
+		}
+		fmt.Println(ret.lit())
 		return
 	}
 
@@ -587,6 +701,9 @@ func main() {
 			os.Exit(2)
 		}
 	}
+	em.flush()
+	em.stats["stored-value-changed-later"] = em.mutated
+	em.stats["later-process-calls-per-batch"] = 8 + 4*8
 	cf.Close()
 	side.Close()
 	summary := map[string]interface{}{"stats": em.stats, "files": cf.Files, "cases": cf.Total, "distinct_nontrivial": em.nontriv,
